@@ -88,4 +88,109 @@ def Canonical (d : D α) : Prop := keys d = (List.range d.length).map fun (i : N
 
 instance (d : D α) : Decidable (Canonical d) := by unfold Canonical; exact inferInstance
 
+/-! ### Components of a multivariate object -/
+
+/-- One component: dense / basis data (rows) or irregular data (labelled observations). -/
+inductive Comp (α : Type)
+  | dense (rows : List α)
+  | irreg (d : D α)
+  deriving Repr
+
+def Comp.nObs : Comp α → Nat
+  | .dense rows => rows.length
+  | .irreg d => d.length
+
+/-- The contents in order, labels forgotten. -/
+def Comp.contents : Comp α → List α
+  | .dense rows => rows
+  | .irreg d => vals d
+
+/-- A freshly built dataset with the same content (the twin of the property). -/
+def Comp.twin : Comp α → Comp α
+  | .dense rows => .dense rows
+  | .irreg d => .irreg (relabel d)
+
+def Comp.get (c : Comp α) (ix : Index) : Except Err (Comp α) :=
+  match c with
+  | .dense rows => (denseGet rows ix).map .dense
+  | .irreg d => (irregGet d ix).map .irreg
+
+def allEqNat : List Nat → Bool
+  | [] => true
+  | a :: t => t.all fun b => b == a
+
+def getComps (ix : Index) : List (Comp α) → Except Err (List (Comp α))
+  | [] => .ok []
+  | c :: cs =>
+    match c.get ix with
+    | .error e => .error e
+    | .ok g =>
+      match getComps ix cs with
+      | .error e => .error e
+      | .ok gs => .ok (g :: gs)
+
+/-- `MultivariateFunctionalData.__getitem__`: the index is applied to every component, then
+the constructor checks that the numbers of observations agree. -/
+def multiGet (cs : List (Comp α)) (ix : Index) : Except Err (List (Comp α)) :=
+  match getComps ix cs with
+  | .error e => .error e
+  | .ok gs => if allEqNat (gs.map Comp.nObs) then .ok gs else .error .valueError
+
+/-- `iter(x)` for one component. -/
+def Comp.iter : Comp α → List (Comp α)
+  | .dense rows => (iterDense rows).map .dense
+  | .irreg d => (iterIrreg d).map .irreg
+
+def allDenseRows : List (Comp α) → Option (List (List α))
+  | [] => some []
+  | .dense r :: t => (allDenseRows t).map (r :: ·)
+  | .irreg _ :: _ => none
+
+def allIrregDicts : List (Comp α) → Option (List (D α))
+  | [] => some []
+  | .irreg d :: t => (allIrregDicts t).map (d :: ·)
+  | .dense _ :: _ => none
+
+/-- `X.concatenate(*pieces)` for univariate pieces of one class (`TypeError` otherwise),
+irregular data with the label arithmetic of the code. -/
+def concatCompsImpl (pieces : List (Comp α)) : Except Err (Comp α) :=
+  match pieces with
+  | [] => .error .other
+  | .dense _ :: _ =>
+    match allDenseRows pieces with
+    | some rs => .ok (.dense (concatDense rs))
+    | none => .error .typeError
+  | .irreg _ :: _ =>
+    match allIrregDicts pieces with
+    | some ds => .ok (.irreg (concatImpl ds))
+    | none => .error .typeError
+
+/-- The same with the labelling the property asks for. -/
+def concatCompsSpec (pieces : List (Comp α)) : Except Err (Comp α) :=
+  match pieces with
+  | [] => .error .other
+  | .dense _ :: _ =>
+    match allDenseRows pieces with
+    | some rs => .ok (.dense (concatDense rs))
+    | none => .error .typeError
+  | .irreg _ :: _ =>
+    match allIrregDicts pieces with
+    | some ds => .ok (.irreg (concatSpec ds))
+    | none => .error .typeError
+
+/-! ### The iteration protocol of the analysis methods -/
+
+/-- `[f(idx, obs.values[idx]) for idx, obs in enumerate(self)]`: what `smooth`, `center`,
+`noise_variance`, `normalize`, `standardize`, `to_basis`, `to_long` do with an irregular dataset.
+`none` = the `KeyError` of a look-up that misses. -/
+def enumLookup (f : Nat → α → β) (pieces : List (D α)) : Option (List β) :=
+  (pieces.zipIdx).mapM fun p => (get? p.1 (p.2 : Int)).map (f p.2)
+
+/-- A per-observation result computed through the iteration protocol. -/
+def perObs (f : Nat → α → β) (d : D α) : Option (List β) := enumLookup f (iterIrreg d)
+
+/-- … keyed by the labels of the dataset it was computed on (`center`, `normalize`, `standardize`). -/
+def perObsKeyed (f : Nat → α → β) (d : D α) : Option (D β) :=
+  (perObs f d).map fun rs => (keys d).zip rs
+
 end FDA.Select
